@@ -211,8 +211,42 @@ func runC07(c *Ctx) {
 				}
 			}
 		}
-		_ = f
 		c.Ob("C07-R4", "StaticCall: readOnly = true with a deferred readOnly = false", c.FnPos(sc), setTrue && restore, fmt.Sprintf("set=%v deferred restore=%v", setTrue, restore))
+		// the flag is one field shared by every frame of the interpreter: a nested static call that finds it already
+		// set must neither set nor (on return) clear it, or the enclosing static frame continues unprotected. So the
+		// store of true, and the registration of the deferred clear, happen only on paths that found the flag clear.
+		var guarded []*pstate
+		owned := true
+		var setBlk *ssa.BasicBlock
+		for _, b := range sc.Blocks {
+			for _, ins := range b.Instrs {
+				if st, ok := ins.(*ssa.Store); ok {
+					if fa, ok := st.Addr.(*ssa.FieldAddr); ok && fieldName(fa) == "readOnly" {
+						guarded = append(guarded, f.At(ins)...)
+						setBlk = b
+					}
+				}
+			}
+		}
+		for _, b := range sc.Blocks {
+			for _, ins := range b.Instrs {
+				d, ok := ins.(*ssa.Defer)
+				if !ok {
+					continue
+				}
+				if mc, ok := d.Call.Value.(*ssa.MakeClosure); ok {
+					if cf, ok := mc.Fn.(*ssa.Function); ok && writesField(cf, "readOnly") {
+						if setBlk == nil || !setBlk.Dominates(b) {
+							owned = false
+						}
+					}
+				}
+			}
+		}
+		c.mustStates("C07-R4", sc, "the store to readOnly", guarded, []LitReq{
+			{Name: "readOnly is set (and its clearing registered) only by the frame that found it clear", Re: `^!EVM#0\.interpreter\.readOnly$`},
+		})
+		c.Ob("C07-R4", "StaticCall: the deferred clear is registered only after this frame's own set", c.FnPos(sc), owned && len(guarded) > 0, fmt.Sprintf("stores=%d dominated=%v", len(guarded), owned))
 		c.fieldWrittenOnlyIn("C07-R4", "core/vm:Interpreter.readOnly", map[string]bool{"(*core/vm.EVM).StaticCall": true, "(*core/vm.EVM).StaticCall$1": true})
 		// effect agreement
 		g := c.CG()
@@ -441,6 +475,10 @@ func runC07(c *Ctx) {
 	// "a failing frame leaves world state exactly as it was" is implemented by the state journal: its discipline
 	// (journal-before-mutate, complete undo, revert shape, dirty-tracking protocol) is decided by C09's rules, shared here
 	c.Borrow("C09", runC09, map[string]string{"C09-R1": "C07-R12", "C09-R1b": "C07-R12", "C09-R2": "C07-R12", "C09-R5": "C07-R12"})
+	// "terminates without crashing the node": the jump-destination bitmap is cached per code hash and indexed by the
+	// jump target, so a code/hash pair that does not match makes a later frame index another code's bitmap (out of
+	// range panic, or a jump into push data). The pairing and cache-key rules are C08's, shared here.
+	c.Borrow("C08", runC08, map[string]string{"C08-R6": "C07-R13"})
 }
 
 // c07UnguardedPositions: stack positions (0 = top at entry) whose value is converted by Uint64()/Int64() (or handed to
@@ -695,6 +733,20 @@ func c07IsCheckedSize(fn *ssa.Function, v ssa.Value) bool {
 		if al, ok := u.X.(*ssa.Alloc); ok {
 			for _, st := range storesInto(fn, al) {
 				if isSafeMul(st) {
+					return true
+				}
+			}
+		}
+	}
+	return false
+}
+
+// writesField: fn contains a store to a field of that name.
+func writesField(fn *ssa.Function, name string) bool {
+	for _, b := range fn.Blocks {
+		for _, ins := range b.Instrs {
+			if st, ok := ins.(*ssa.Store); ok {
+				if fa, ok := st.Addr.(*ssa.FieldAddr); ok && fieldName(fa) == name {
 					return true
 				}
 			}
